@@ -556,3 +556,25 @@ def srcOf (s : St) : Src :=
     T := mk3 s.S s.A s.S (fun x a x1 => get3 s.T a x x1),
     R := mk3 s.S s.A s.S (fun x a _ => get2 s.R x a) }
 end AITB.MS
+
+/-! ## learned / factored models derived by the library: the discount cell (rows are C07's model, AITB.Model.Experience) -/
+namespace AITB.MS
+open AITB.Guard
+
+/-- the guard of a learned-model class's own `setDiscount` (read from the generated table) -/
+def learnedGuard (file : String) : GExpr := guardOf file "setDiscount"
+
+/-- constructor: `setDiscount(discount)` first (when the source does so); a throw means no object -/
+def lmCtor (ctorChecks : Bool) (g : GExpr) (d : XRat) : Option XRat :=
+  if ctorChecks && g.eval d then none else some d
+
+/-- `setDiscount(d)` on an object whose discount is `cur`: (new discount, threw) -/
+def lmSetDiscount (validateFirst : Bool) (g : GExpr) (cur d : XRat) : XRat × Bool :=
+  if validateFirst then (if g.eval d then (cur, true) else (d, false)) else (d, g.eval d)
+
+/-- a history of setDiscount calls -/
+def lmRun (validateFirst : Bool) (g : GExpr) (cur : XRat) : List XRat → XRat
+  | [] => cur
+  | d :: r => lmRun validateFirst g (lmSetDiscount validateFirst g cur d).1 r
+
+end AITB.MS
